@@ -39,7 +39,7 @@ var IterStops = []string{"StopIteration", "StopIteration()", "StopIteration(77)"
 var IterConsumers = []string{
 	"for", "listcomp", "setcomp", "dictcomp", "genexp", "unpack", "starred", "starcall",
 	"list", "tuple", "set", "sum", "min", "max", "sorted", "zipl", "zipr", "map", "filter", "enumerate", "any", "all", "in", "notin", "join",
-	"forbreak", "nestedfor", "listiter", "whilenext", "nextdefault", "sortedkey", "minkey", "maxkey", "sortedrev", "sumstart", "unpacknested", "forunpack", "listofgen", "anygen", "chainfor", "extend", "iadd", "sliceassign", "minkeyfail", "maxkeyfail", "sortedkeyfail", "starmany", "starmanyshort",
+	"forbreak", "nestedfor", "listiter", "whilenext", "nextdefault", "sortedkey", "minkey", "maxkey", "sortedrev", "sumstart", "unpacknested", "forunpack", "listofgen", "anygen", "chainfor", "extend", "iadd", "sliceassign", "minkeyfail", "maxkeyfail", "sortedkeyfail", "starmany", "starmanyshort", "filterbadtruth", "anybadtruth", "allbadtruth", "ifbadtruth",
 }
 
 var iterWrappers = []string{"deleg", "map", "filter", "genexp", "zipl", "enum", "deleg", "zip2", "map2"}
@@ -380,6 +380,17 @@ def mkpred(tag, fail, exc):
     return pred
 def fargs(*a):
     return list(a)
+class _BadTruth:
+    def __bool__(self):
+        raise ValueError("P:truth")
+def _bt(k, normal=True):
+    n = [0]
+    def pred(x):
+        n[0] += 1
+        if n[0] == k + 1:
+            return _BadTruth()
+        return normal
+    return pred
 def _chain(a, n):
     for _v in a:
         yield _v
@@ -539,6 +550,17 @@ func consumerBody(c, id, g string, v, tag int) string {
 			lhs = strings.Join(names, ", ") + ", *_r, _a"
 		}
 		return fmt.Sprintf("%s = %s\nlog(%s, \"%s\", _a, _r, _t0, _t1, _t%d)", lhs, src, id, c, n-1)
+	case "filterbadtruth":
+		// the predicate succeeds, the truth test of what it returned raises
+		return one(fmt.Sprintf("list(filter(_bt(%d), %s))", v%4, g))
+	case "anybadtruth":
+		// (the truth tests are made by any() / all() / filter() themselves - conditions evaluated
+		// by the VM are another property's subject)
+		return fmt.Sprintf("_p = _bt(%d, False)\nlog(%s, \"%s\", any(_p(_v) for _v in %s))", v%4, id, c, g)
+	case "allbadtruth":
+		return fmt.Sprintf("_p = _bt(%d)\nlog(%s, \"%s\", all(_p(_v) for _v in %s))", v%4, id, c, g)
+	case "ifbadtruth":
+		return fmt.Sprintf("_p = _bt(%d)\nlog(%s, \"%s\", list(filter(None, (_p(_v) for _v in %s))) == [])", v%4, id, c, g)
 	case "starcall":
 		return one(fmt.Sprintf("fargs(*%s)", g))
 	case "list", "tuple", "set", "frozenset", "sum", "min", "max", "sorted", "any", "all":
